@@ -9,6 +9,9 @@ MAP = {
  'B3-1': 'C02,C03,C06,C13,C14,C15,C18', 'B3-2': 'C02,C03,C06,C15,C16,C04', 'B3-3': 'C18,C15,C17,C02,C03,C06',
  'B4-1': 'C02,C03,C04,C13,C14,C15,C16,C17', 'B4-2': 'C07,C03,C15,C16,C17,C18', 'B4-3': 'C02,C03,C13,C15,C16,C17',
  'B5-1': 'C01,C04,C05,C12,C14,C02,C03,C10,C16,C17', 'B5-2': 'C09,C17', 'B5-3': 'C10,C11,C09,C17',
+ 'BX-1': 'C10,C17', 'BX-2': 'C09,C17', 'BX-3': 'C12,C17,C01,C04,C05', 'BX-4': 'C11,C17',
+ 'BX-5': 'C02,C03,C06,C13,C15,C16,C17,C18', 'BX-6': 'C02,C03,C13,C14,C15,C16,C17',
+ 'BX-7': 'C07,C03,C15,C16,C17,C18', 'BX-8': 'C02,C03,C06,C13,C15,C16,C17,C18',
  'B1-1': 'C06,C03,C02,C13,C15,C16,C18', 'B1-2': 'C06,C03,C02,C13,C15,C16,C18', 'B1-3': 'C06,C03,C02,C13,C15,C16,C18',
 }
 ids = [a for a in sys.argv[1:]] or sorted(MAP)
